@@ -5,10 +5,11 @@ is the best value of the last cell.  Core only.
 -/
 import Biogo.Proofs.AffineOpt
 import Biogo.Proofs.AlignAffTable
+import Biogo.Proofs.TraceSum
 
 namespace Biogo.Proofs.NWAffine
 open Biogo.Spec.Alignment Biogo.AlignAff Biogo.Spec.AffineOpt Biogo.Proofs.AffineAln
-open Biogo.Proofs.AffineOpt Biogo.Proofs.AlignAffTable
+open Biogo.Proofs.AffineOpt Biogo.Proofs.AlignAffTable Biogo.Proofs.TraceSum
 
 /-- the class of alignments `NWAffine` explores: global, no gap next to an opposite gap -/
 def flN : Flags := ⟨false, false, false⟩
@@ -161,48 +162,6 @@ theorem nwTable_facts (S : Matrix) (o : Int) (r q : List Nat) : NWFacts (nwTable
 
 /-! ### the traceback: some `case` always matches and the reported scores telescope -/
 
-theorem vadd_eq_some {a : V} {x v : Int} (h : vadd a x = some v) : ∃ w, a = some w ∧ w + x = v := by
-  cases a with
-  | none => cases h
-  | some w => exact ⟨w, rfl, by simpa [vadd] using h⟩
-
-theorem total_cons (p : Pair) (ps : List Pair) : total (p :: ps) = p.score + total ps := by
-  simp [total, List.sum_cons]
-
-theorem move_sum (st : TB) (e : Bool) (mv pl : Kind) (v pv : Int) :
-    total (st.move e mv pl v pv).aln + (st.move e mv pl v pv).score
-      = total st.aln + st.score + (v - pv) := by
-  unfold TB.move
-  simp only []
-  split
-  · simp only [TB.emit, total_cons]; omega
-  · omega
-
-theorem ite_emit_i (c : Prop) [Decidable c] (st : TB) : (if c then st.emit else st).i = st.i := by
-  split <;> rfl
-
-theorem ite_emit_j (c : Prop) [Decidable c] (st : TB) : (if c then st.emit else st).j = st.j := by
-  split <;> rfl
-
-theorem move_i (st : TB) (e : Bool) (mv pl : Kind) (v pv : Int) :
-    (st.move e mv pl v pv).i = if mv = .l then st.i else st.i - 1 := by
-  unfold TB.move
-  simp only [ite_emit_i]
-
-theorem move_j (st : TB) (e : Bool) (mv pl : Kind) (v pv : Int) :
-    (st.move e mv pl v pv).j = if mv = .u then st.j else st.j - 1 := by
-  unfold TB.move
-  simp only [ite_emit_j]
-
-theorem move_layer (st : TB) (e : Bool) (mv pl : Kind) (v pv : Int) :
-    (st.move e mv pl v pv).layer = pl := by
-  unfold TB.move
-  simp only []
-
-theorem predOf_eq (T : Table) (i j : Nat) (mv : Kind) :
-    predOf T i j mv = T.at (if mv = .l then i else i - 1) (if mv = .u then j else j - 1) := by
-  cases mv <;> rfl
-
 /-- in an inner cell some `case` of the traceback switch matches the current value -/
 theorem exists_cand {T : Table} {S : Matrix} {o : Int} {r q : List Nat} (F : NWFacts T S o r q)
     (i j : Nat) (hi : i < r.length) (hj : j < q.length) (k : Kind) (v : Int)
@@ -231,60 +190,18 @@ theorem exists_cand {T : Table} {S : Matrix} {o : Int} {r q : List Nat} (F : NWF
     · exact ⟨(.l, .m, o + S 0 (q.getD j 0)), by simp [cands], by simpa [predOf, Cell.get] using h⟩
     · exact ⟨(.l, .l, S 0 (q.getD j 0)), by simp [cands], by simpa [predOf, Cell.get] using h⟩
 
-/-- the loop invariant: the current layer holds a value, and what has been reported so far
-    plus that value is the value the traceback started from -/
-def Good (T : Table) (R C : Nat) (B : Int) (st : TB) : Prop :=
-  st.i ≤ R ∧ st.j ≤ C ∧ ∃ v, (T.at st.i st.j).get st.layer = some v ∧ total st.aln + st.score + v = B
-
 theorem loop_good {T : Table} {S : Matrix} {o : Int} {r q : List Nat} (F : NWFacts T S o r q) (B : Int) :
     ∀ (fuel : Nat) (st : TB), Good T r.length q.length B st → st.i + st.j ≤ fuel →
       ∃ st', tbLoop false T S o r q r.length q.length fuel st = .ok st' ∧
         Good T r.length q.length B st' ∧ (st'.i = 0 ∨ st'.j = 0) := by
-  intro fuel
-  induction fuel with
-  | zero =>
-    intro st hg hf
-    exact ⟨st, rfl, hg, Or.inl (by omega)⟩
-  | succ fuel ih =>
-    intro st hg hf
-    unfold tbLoop
-    by_cases h0 : st.i = 0 ∨ st.j = 0
-    · rw [if_pos h0]; exact ⟨st, rfl, hg, h0⟩
-    rw [if_neg h0]
-    obtain ⟨hi, hj, v, hv, hsum⟩ := hg
-    obtain ⟨i', hi'⟩ : ∃ i', st.i = i' + 1 := ⟨st.i - 1, by omega⟩
-    obtain ⟨j', hj'⟩ : ∃ j', st.j = j' + 1 := ⟨st.j - 1, by omega⟩
-    simp only [hv]
-    have hsw : ¬ ((false : Bool) = true ∧ v = 0) := by simp
-    rw [if_neg hsw]
-    have hx : st.i - 1 = i' := by omega
-    have hy : st.j - 1 = j' := by omega
-    rw [hx, hy]
-    obtain ⟨cd, hmem, hcd⟩ := exists_cand F i' j' (by omega) (by omega) st.layer v (by rw [← hi', ← hj']; exact hv)
-    cases hfind : (cands false S o (r.getD i' 0) (q.getD j' 0)).find?
-        (fun cd => vadd ((predOf T st.i st.j cd.1).get cd.2.1) cd.2.2 == some v) with
-    | none =>
-      exfalso
-      rw [List.find?_eq_none] at hfind
-      apply hfind cd hmem
-      rw [hi', hj']
-      simpa using hcd
-    | some found =>
-      obtain ⟨mv, pl, add⟩ := found
-      have hp := List.find?_some hfind
-      simp only [beq_iff_eq] at hp
-      obtain ⟨pv, hpv, hadd⟩ := vadd_eq_some hp
-      simp only []
-      have hvget : vget ((predOf T st.i st.j mv).get pl) = pv := by rw [hpv]; rfl
-      rw [hvget]
-      apply ih
-      · refine ⟨?_, ?_, pv, ?_, ?_⟩
-        · rw [move_i]; split <;> omega
-        · rw [move_j]; split <;> omega
-        · rw [move_i, move_j, move_layer, ← predOf_eq]; exact hpv
-        · rw [move_sum]; omega
-      · rw [move_i, move_j]
-        cases mv <;> simp <;> omega
+  intro fuel st hg hf
+  obtain ⟨st', h1, h2, h3⟩ := loop_good_gen false r.length q.length
+    (fun i j hi hj k v hv _ => exists_cand F i j hi hj k v hv) B fuel st hg hf
+  refine ⟨st', h1, h2, ?_⟩
+  rcases h3 with h | h | h
+  · exact Or.inl h
+  · exact Or.inr h
+  · exact absurd h.1 (by simp)
 
 /-! ### a witness: non-empty sequences have a global alignment without adjacent opposite gaps -/
 
